@@ -25,17 +25,18 @@ RULE = ("three streams: (A) selectVRO under subsets of {-t tags, -T tags, keep, 
         "the line; (E) tables of 2-3 lines for different products, the first mostly with -k or -t, other versions of the "
         "products already set up: each line's answer and the command's VRO afterwards.  A lookup is non-trivial when the database holds a "
         "declaration of the product for the flavor asked; distinct = distinct (database, request, VRO, mode) digests")
-TRUSTED = ["the local version order of the model's driver (dotted decimals) agrees with Eups.version_cmp / version_match "
-           "on the generator's version names (re-checked on every run); the order itself is C10's subject",
-           "which flavors a fresh process loads for a stack (accepted cache: native only; rebuilt: all) is an input of "
-           "the model (interface with C07, finding D16); the harness checks the prediction on every cached child",
+TRUSTED = ["the driver instantiates the model's order with C10's model of version_cmp / version_match (Model/VersionCmp.lean, "
+           "verified by C10); it is compared with Eups.version_cmp / version_match on the generator's names on every run",
+           "which flavors a fresh process loads for a stack (accepted cache: native + fallback flavors; rebuilt: all) is an "
+           "input of the model (interface with C07); the harness checks the prediction on every cached child",
            "user tags, tag files (file:...), LOCAL: versions, the `setup` pseudo-tag and qualified tag names are outside the model"]
 ASSUMPTIONS = ["one Eups instance per command; selectVRO is called once per instance (twice by `eups vro`, modelled)",
                "at most one version per (tag, product, flavor) and stack; version and chain files are well formed",
                "no file in the working directory is named like a tag"]
 
 NATIVE = "Linux"
-FLAVS = ["Linux", "generic"]
+FLAVS = ["Linux", "generic"]              # the native flavor and its fallback: what the flavor loop visits and the cache is read for
+OTHER_FLAVOR = "Darwin"                   # a flavor the process neither runs as nor falls back to
 VERS = ["1.0", "1.00", "1.2", "1.10", "2.0", "10.1", "2.0.1"]
 TAGS = ["current", "stable", "beta", "t"]          # `t`: a tag whose name is a substring of "path" (D33)
 GLOBAL_TAGS = ["current", "stable", "beta", "t"]
@@ -77,12 +78,14 @@ def gen_world(rng, names=None):
         decls, tags = [], []
         for nm in names:
             for v in VERS:
-                for f in FLAVS:
-                    if rng.random() < (dens if f == NATIVE else dens * 0.7):
+                for f in FLAVS + [OTHER_FLAVOR]:
+                    if rng.random() < (dens if f == NATIVE else dens * 0.7 if f in FLAVS else dens * 0.15):
                         decls.append([nm, v, f])
             for t in TAGS:
-                for f in FLAVS:
+                for f in FLAVS + [OTHER_FLAVOR]:
                     mine = [d[1] for d in decls if d[0] == nm and d[2] == f]
+                    if f == OTHER_FLAVOR and not mine:
+                        continue
                     r = rng.random() * (1.0 if t != "t" else 2.0)
                     if r < 0.45 and mine:
                         tags.append([t, nm, f, rng.choice(mine)])
@@ -128,16 +131,17 @@ def write_world(root, world):
 
 
 def declared_flavors(st):
-    return sorted({d[2] for d in st["decls"]} | {NATIVE})
+    return sorted({d[2] for d in st["decls"]} | set(FLAVS))
 
 
 def accepted_stacks(world, mode):
-    """The load-versus-rebuild rule (DESIGN C07/D16) on a primed, untouched cache: the native-flavor cache of a
-    stack is accepted iff the product names it lists (those declared for the native flavor) are all the product
-    names of the stack's database; otherwise the stack is rebuilt and every flavor is loaded."""
+    """The load-versus-rebuild rule (DESIGN C07) on a primed, untouched cache, after fix 9143b09: the process reads the
+    cache for the native flavor and its fallbacks; the cache of a stack is accepted iff the product names it lists
+    (those declared for one of these flavors) are all the product names of the stack's database; otherwise the stack
+    is rebuilt and every flavor is loaded."""
     if not mode.endswith("accepted"):
         return [False] * len(world["stacks"])
-    return [{d[0] for d in st["decls"] if d[2] == NATIVE} == {d[0] for d in st["decls"]} for st in world["stacks"]]
+    return [{d[0] for d in st["decls"] if d[2] in FLAVS} == {d[0] for d in st["decls"]} for st in world["stacks"]]
 
 
 # ---- oracle (ii): the property's text, evaluated on the generator's description ------------------------
@@ -430,7 +434,8 @@ MODES = ["files", "cache-rebuilt", "cache-accepted", "mixed-accepted"]
 
 def gen_lookup(rng, world, pool, names):
     name = rng.choice(names)
-    flavor = NATIVE if rng.random() < 0.65 else "generic"
+    r = rng.random()
+    flavor = NATIVE if r < 0.62 else "generic" if r < 0.95 else OTHER_FLAVOR
     have = sorted({d[1] for st in world["stacks"] for d in st["decls"] if d[0] == name})
     r = rng.random()
     vexpr = None
@@ -511,7 +516,7 @@ def b_impl_item(item):
 
 def b_model_req(world, mode, lk):
     m = {"files": "files", "cache-rebuilt": "cache", "cache-accepted": "cache", "mixed-accepted": "mixed"}[mode]
-    return {"m": "c03", "op": "find", "db": world["stacks"], "mode": m, "native": NATIVE,
+    return {"m": "c03", "op": "find", "db": world["stacks"], "mode": m, "loaded": FLAVS,
             "accepted": accepted_stacks(world, mode), "globalTags": GLOBAL_TAGS,
             "vro": lk["vro"],
             "req": {"name": lk["name"], "version": lk["version"], "vexpr": lk["vexpr"], "depth": lk["depth"],
@@ -541,7 +546,9 @@ def b_oracle(world, mode, lk, out):
     if want[0] == "unspecified":
         return
     hit = out["hit"]
-    d16 = "D16" if (any(accepted_stacks(world, mode)) and lk["flavor"] != NATIVE) else None
+    if lk["flavor"] not in FLAVS and mode != "files":
+        return      # a flavor the process does not load from an accepted cache: outside the property's quantifier
+    d16 = None      # D16 is repaired (9143b09): nothing is excused
     if want[0] == "none":
         if hit is not None:
             named = v is not None
@@ -610,7 +617,7 @@ def eval_b(ctx, items):
             if mode == "files" or "child" in r:
                 continue
             acc = accepted_stacks(world, mode)
-            pred = [[NATIVE] if a else declared_flavors(st) for a, st in zip(acc, world["stacks"])]
+            pred = [sorted(FLAVS) if a else declared_flavors(st) for a, st in zip(acc, world["stacks"])]
             ctx.hist("B:stack-load=accepted", sum(acc))
             ctx.hist("B:stack-load=rebuilt", len(acc) - sum(acc))
             if r["loaded"] != pred:
@@ -701,7 +708,7 @@ def c_sel_req(c):
 
 
 def c_res_req(c, vro):
-    return {"m": "c03", "op": "resolve", "db": c["world"]["stacks"], "mode": "files", "native": NATIVE,
+    return {"m": "c03", "op": "resolve", "db": c["world"]["stacks"], "mode": "files", "loaded": FLAVS,
             "accepted": [False] * len(c["world"]["stacks"]), "globalTags": GLOBAL_TAGS, "vro": vro,
             "keep": c["keep"], "flavors": FLAVS,
             "req": {"name": c["name"], "version": c["version"], "vexpr": None, "depth": c["depth"], "flavor": NATIVE,
@@ -936,7 +943,7 @@ def eval_d(ctx, cases):
                                 "lineTags": c["line"]["tags"], "lineKeep": c["line"]["keep"]} for c, s in zip(cases, sels)])
     reqs = []
     for c, ln in zip(cases, lines):
-        reqs.append({"m": "c03", "op": "resolve", "db": c["world"]["stacks"], "mode": "files", "native": NATIVE,
+        reqs.append({"m": "c03", "op": "resolve", "db": c["world"]["stacks"], "mode": "files", "loaded": FLAVS,
                      "accepted": [False] * len(c["world"]["stacks"]), "globalTags": GLOBAL_TAGS, "vro": ln["vro"],
                      "keep": c["keep"], "flavors": FLAVS,
                      "req": {"name": "p", "version": c["version"], "vexpr": c["vexpr"], "depth": 1, "flavor": NATIVE,
@@ -1143,7 +1150,7 @@ def eval_e(ctx, cases):
     sels = ctx.lean.ask_many([d_sel_req(c) for c in cases])
     reqs = []
     for c, s in zip(cases, sels):
-        reqs.append({"m": "c03", "op": "runTable", "db": c["world"]["stacks"], "mode": "files", "native": NATIVE,
+        reqs.append({"m": "c03", "op": "runTable", "db": c["world"]["stacks"], "mode": "files", "loaded": FLAVS,
                      "accepted": [False] * len(c["world"]["stacks"]), "globalTags": GLOBAL_TAGS, "vro": s.get("vro", []),
                      "keep": c["keep"], "flavors": FLAVS,
                      "lines": [{"name": ln["name"], "version": ln["version"], "vexpr": ln["vexpr"],
@@ -1210,6 +1217,9 @@ def check_order(ctx):
         for j, b in enumerate(names):
             if ans[k]["cmp"] != cm[i][j]:
                 ctx.disagree("version_cmp_on_generator_names", {"stream": "O", "a": a, "b": b}, cm[i][j], ans[k]["cmp"])
+            if not ans[k]["conv"] or ans[k]["simple"] != ans[k]["cmp"]:
+                raise common.InfraError("generator version names %r, %r: not conventional for C10's model, or its order "
+                                        "differs from the dotted-decimal one of the examples" % (a, b))
             if (cm[i][j] > 0) - (cm[i][j] < 0) != (vkey(a) > vkey(b)) - (vkey(a) < vkey(b)):
                 ctx.fail("order_is_numeric", {"stream": "O", "a": a, "b": b}, cm[i][j], ans[k]["cmp"],
                          note="version_cmp disagrees with numeric order on dotted versions")
@@ -1218,6 +1228,8 @@ def check_order(ctx):
         for j, x in enumerate(EXPRS):
             if ans[k]["match"] != mt[i][j]:
                 ctx.disagree("version_match_on_generator_names", {"stream": "O", "v": v, "x": x}, mt[i][j], ans[k]["match"])
+            if not ans[k]["ok"]:
+                raise common.InfraError("expression %r cannot be evaluated on %r by C10's model" % (x, v))
             if mt[i][j] != spec_sat(v, x):
                 ctx.fail("match_is_numeric", {"stream": "O", "v": v, "x": x}, mt[i][j], ans[k]["match"],
                          note="version_match disagrees with the numeric reading of the expression")
